@@ -196,6 +196,7 @@ fn allowed_features() -> gen::problem::Features {
     allowed.req_breaks = false; // reserved-time model is not part of the reference oracle
     allowed.clustering = true; // the oracle judges bookkeeping and the time-independent rules of clustered tours
     allowed.recharges = true;
+    allowed.time_dependent = true;
     allowed
 }
 
@@ -237,6 +238,9 @@ impl W1Scenario {
         }
         if case.problem["plan"].get("clustering").is_some() {
             sig.push("clustering");
+        }
+        if case.matrices.iter().any(|m| m.get("timestamp").is_some()) {
+            sig.push("time-dependent");
         }
         if case.problem["plan"].get("relations").is_some() {
             sig.push("relations");
